@@ -111,32 +111,53 @@ Diverge(d1, d2) ==
 
 \* every requested destination that no later request of the batch conflicts with (by parting from its path at a
 \* composite region, or by re-resolving a region above it) is active, with its ancestors
-DestinationsActive(batch, m2) ==
+\* D30 (open finding): a request whose path runs through a composite region that IS active on that path, below a point
+\* where an earlier request of the same step (same or earlier round) left the path - by targeting an ancestor or by
+\* parting from it higher up - is not followed to its destination: RegistryT::requestImmediate sets no request for
+\* the region that "already points the right way", and the earlier request's re-targeting above it makes the region
+\* resolve afresh by its strategy
+LostBelow(batch, i, act0) ==
+    LET d == batch[i][2] IN
+    \E j \in 1 .. i - 1 :
+        LET dj   == batch[j][2]
+            tops == IF dj \in Ancestors(d) THEN {dj}
+                    ELSE { a \in Ancestors(d) \cap Ancestors(dj) : St[a].kind = "C" /\ Toward(a, d) # Toward(a, dj) }
+        IN \E top \in tops :
+              \E s \in Ancestors(d) : /\ St[s].kind = "C" /\ top \in Ancestors(s)
+                                      /\ act0[St[s].compo] = St[Toward(s, d)].prong
+DestinationsActive(batch, m2, act0) ==
     \A i \in 1 .. Len(batch) :
-        (\A j \in i + 1 .. Len(batch) : ~Diverge(batch[i][2], batch[j][2]) /\ batch[j][2] \notin Ancestors(batch[i][2]))
+        (/\ \A j \in i + 1 .. Len(batch) : ~Diverge(batch[i][2], batch[j][2]) /\ batch[j][2] \notin Ancestors(batch[i][2])
+         /\ ~("LaterRequestBelowLeftRegion" \in Dev /\ LostBelow(batch, i, act0)))
             => \A s \in PathOf(batch[i][2]) : IsActive(m2, s)
 
-P_Prescribed ==
-    [][ ph = "chosen" =>
-        /\ (Processing(lab') /\ ~LimitHit(st')) =>
-              LET batch == EffectiveBatch(st'.rounds, 1)
-                  trs   == Transitions(batch)
-                  pr    == Prescribed(st.act, st.res, batch, EnvOf(st'))
-              IN /\ DestinationsActive(trs, st')
-                 \* regions no callback touched keep their sub-state
-                 /\ \A c \in Compos \ Touched(st') : st'.act[c] = st.act[c]
-                 \* one transition request: the whole configuration is prescribed
-                 /\ Len(trs) <= 1 =>
-                       /\ st'.act = pr[1]
-                       /\ ResumableRule(st.act, st.res, st'.act, st'.res, pr[2], Touched(st'))
-        /\ lab'[1] = "reset" => st'.act = FreshConfig(EnvOf(st')) /\ st'.res = [c \in Compos |-> 0]
-        /\ (lab'[1] = "enter" /\ ~LimitHit(st')) =>
-              LET trs == Transitions(EffectiveBatch(st'.rounds, 1)) IN
-              /\ DestinationsActive(trs, st')
-              /\ Len(trs) <= 1 =>
-                    st'.act = Prescribed(FreshConfig(EnvOf(st')), [c \in Compos |-> 0], EffectiveBatch(st'.rounds, 1), EnvOf(st'))[1]
-        /\ lab'[1] \in {"query", "queue", "succeed", "fail"} => st'.act = st.act /\ st'.res = st.res
-      ]_vars
+PrescProcessing ==
+    (Processing(lab') /\ ~LimitHit(st')) =>
+          LET batch == EffectiveBatch(st'.rounds, 1)
+              trs   == Transitions(batch)
+              pr    == Prescribed(st.act, st.res, batch, EnvOf(st'))
+          IN /\ DestinationsActive(trs, st', st.act)
+             \* regions no callback touched keep their sub-state
+             /\ \A c \in Compos \ Touched(st') : st'.act[c] = st.act[c]
+             \* one transition request: the whole configuration is prescribed
+             /\ Len(trs) <= 1 =>
+                   /\ st'.act = pr[1]
+                   /\ ResumableRule(st.act, st.res, st'.act, st'.res, pr[2], Touched(st'))
+PrescReset == lab'[1] = "reset" => st'.act = FreshConfig(EnvOf(st')) /\ st'.res = [c \in Compos |-> 0]
+PrescEnter ==
+    (lab'[1] = "enter" /\ ~LimitHit(st')) =>
+          LET trs == Transitions(EffectiveBatch(st'.rounds, 1)) IN
+          /\ DestinationsActive(trs, st', [c \in Compos |-> 0])
+          /\ Len(trs) <= 1 =>
+                st'.act = Prescribed(FreshConfig(EnvOf(st')), [c \in Compos |-> 0], EffectiveBatch(st'.rounds, 1), EnvOf(st'))[1]
+PrescIdle == lab'[1] \in {"query", "queue", "succeed", "fail"} => st'.act = st.act /\ st'.res = st.res
+
+P_Prescribed == [][ ph = "chosen" => PrescProcessing /\ PrescReset /\ PrescEnter /\ PrescIdle ]_vars
+\* the same, clause by clause (diagnostics)
+P_PrescProcessing == [][ ph = "chosen" => PrescProcessing ]_vars
+P_PrescReset      == [][ ph = "chosen" => PrescReset ]_vars
+P_PrescEnter      == [][ ph = "chosen" => PrescEnter ]_vars
+P_PrescIdle       == [][ ph = "chosen" => PrescIdle ]_vars
 
 \* C04
 IsGuardEv(e) == Base(e[2]) \in GuardMethods
